@@ -462,6 +462,19 @@ def replay(crate, h, tdir, logdir):
         suffix=".playback-gen")
     hfile = os.path.join(crate, "verif_h", h.file)
     src = open(hfile).read()
+    # Kani emits one test per failing check; identical counterexamples get identical names: dedupe
+    blk_re = re.compile(r"(?:///[^\n]*\n|\s*\n)*#\[test\]\s*\nfn (kani_concrete_playback_\w+)\(\) \{.*?\n\}\n", re.S)
+    seen_names = set()
+
+    def _dedupe(m):
+        if m.group(1) in seen_names:
+            return "\n"
+        seen_names.add(m.group(1))
+        return m.group(0)
+    src2 = blk_re.sub(_dedupe, src)
+    if src2 != src:
+        open(hfile, "w").write(src2)
+        src = src2
     tests = re.findall(r"fn (kani_concrete_playback_%s_\w+)\(" % re.escape(h.name), src)
     if not tests:
         res["detail"] = "kani produced no concrete playback test"
@@ -473,7 +486,12 @@ def replay(crate, h, tdir, logdir):
     verdicts = []
     for prof in ("dev", "release"):
         env = dict(ENV)
-        env["CARGO_TARGET_DIR"] = os.path.join(tdir, "playback-" + prof)
+        ptd = os.path.join(tdir, "playback-" + prof)
+        pcache = os.path.join(CACHE, "playback-%s-%s" % (prof, cache_key()))
+        if os.path.exists(os.path.join(pcache, ".verif-complete")) and not os.path.exists(ptd):
+            subprocess.run(["cp", "-al", pcache, ptd])
+            strip_own_artifacts(ptd)
+        env["CARGO_TARGET_DIR"] = ptd
         if prof == "release":
             # `cargo kani playback` has no --release: emulate the release profile
             env["CARGO_PROFILE_DEV_OPT_LEVEL"] = "3"
@@ -492,6 +510,16 @@ def replay(crate, h, tdir, logdir):
             pout = "timeout"
         with open(os.path.join(logdir, h.name + ".playback-%s.log" % prof), "w") as f:
             f.write(pout)
+        if not os.path.exists(pcache) and "test result:" in pout:
+            # keep the natively compiled dependencies for later replays (svgbob's own artefacts stripped)
+            tmpc = pcache + ".tmp%d" % os.getpid()
+            try:
+                subprocess.run(["cp", "-al", ptd, tmpc], check=True)
+                strip_own_artifacts(tmpc)
+                open(os.path.join(tmpc, ".verif-complete"), "w").write("ok")
+                os.rename(tmpc, pcache)
+            except Exception:
+                shutil.rmtree(tmpc, ignore_errors=True)
         m = re.search(r"test result: (\w+)\. (\d+) passed; (\d+) failed", pout)
         if not m:
             verdicts.append(None)
